@@ -37,6 +37,7 @@ CONSTANT Mutant    \* "none" | "plusinpath" (server decodes '+' in path segments
                    \* | "multipass" (client: placeholders substituted one after the other with ReplaceAll - substituted text is scanned again)
                    \* | "stripkey" (security.APIKeyAuth removes the accepted key from the request before the parameters are bound)
                    \* | "sharedcodecs" (client.New hands every Runtime the same Consumers / Producers maps)
+                   \* | "defaultonempty" (a multi array's declared default also replaces the supplied list <<"">>)
 
 U == INSTANCE ClientURL WITH Variant <- "fixed"
 
@@ -243,6 +244,13 @@ FormSource(media, body, query, name) ==
   ELSE ValuesOf(body, name)
 \* untypedParamBinder.bindValue: arrays take every value, scalars the last one
 BindFormValue(kind, vals) == IF kind = "multi" \/ vals = <<>> THEN vals ELSE << vals[Len(vals)] >>
+\* untypedParamBinder.setSliceFieldValue: the default declared in the description (def = <<>> none, else <<items>>) stands in for
+\* an array the caller did not supply (no value at all); a list the caller did supply - also <<"">> - is bound as it is
+BindMulti(def, data) ==
+  LET none == data = <<>> \/ (Mutant = "defaultonempty" /\ data = << <<>> >>) IN
+  IF def # <<>> /\ none THEN def[1] ELSE data
+MultiAgrees(def, data) == data # <<>> => BindMulti(def, data) = data
+
 FormReceived(media, kind, body, query, name) == BindFormValue(kind, FormSource(media, body, query, name))
 FormAgrees(media, kind, body, query, name) == FormReceived(media, kind, body, query, name) = BindFormValue(kind, ValuesOf(body, name))
 
